@@ -164,11 +164,13 @@ package bkl
 // ------------------------------------------------------------------------------------------------- validate.go
 
 //@ func validate(obj) (err)
+//@   ensures (=> (escV obj) (not (isErr err)))                                             [C06]
 //@   ensures (= (isErr err) (not (noMarker obj)))                                  [C07] [C17]
 //@   ensures (=> (isErr err) (or (= err ErrRequiredField) (= err ErrInvalidDirective)))
 //@   decreases (rank obj) 1
 //
 //@ func validateMap(obj) (err)
+//@   ensures (=> (escV obj) (not (isErr err)))                                             [C06]
 //@   requires ((_ is VMap) obj)
 //@   ensures (= (isErr err) (not (noMarker obj)))                                  [C07]
 //@   ensures (=> (isErr err) (or (= err ErrRequiredField) (= err ErrInvalidDirective)))
@@ -177,11 +179,13 @@ package bkl
 //@     invariant (forall ((j String)) (=> (select visited j) (and (not (marker j)) (noMarker (select (mc obj) j)))))
 //
 //@ func validateList(obj) (err)
+//@   ensures (=> (escV obj) (not (isErr err)))                                             [C06]
 //@   ensures (= (isErr err) (not (noMarker obj)))                                  [C07]
 //@   ensures (=> (isErr err) (or (= err ErrRequiredField) (= err ErrInvalidDirective)))
 //@   decreases (rank obj) 0
 //@   loop 1
 //@     invariant (= (noMarkerL rest) (noMarkerL (ls obj)))
+//@     invariant (=> (escL (ls obj)) (escL rest))   [C06]
 //
 //@ func validateString(obj) (err)
 //@   ensures (= (isErr err) (marker obj))                                          [C07] [C17]
@@ -201,6 +205,7 @@ package bkl
 //@   ensures (= (isErr err) (outBad obj true))
 //@   ensures (=> (not (isErr err)) (= res (stripF obj)))                           [C11] [C06]
 //@   ensures (=> (not (isErr err)) (= outs (VList (selF obj))))                    [C11] [C06]
+//@   ensures (=> (escV obj) (and (not (isErr err)) (= res obj) (= outs (VList LNil))))       [C06]
 //@   decreases (rank obj) 1
 //
 //@ func findOutputsMap(obj) (res, outs, err)
@@ -209,6 +214,7 @@ package bkl
 //@   ensures (= (isErr err) (outBad obj true))
 //@   ensures (=> (not (isErr err)) (= res (stripF obj)))                           [C11]
 //@   ensures (=> (not (isErr err)) (= outs (VList (selF obj))))                    [C11]
+//@   ensures (=> (escV obj) (and (not (isErr err)) (= res obj) (= outs (VList LNil))))       [C06]
 //@   decreases (rank obj) 0
 //@   loop 1
 //@     invariant ((_ is VMap) ret) ((_ is VList) outs)
@@ -216,8 +222,11 @@ package bkl
 //@     invariant (forall ((j String)) (=> (not (select visited j)) (= (select (mc ret) j) VAbsent)))
 //@     invariant (= (app (ls outs) (selK (mc obj) rest)) (app (ls outs@loop) (selK (mc obj) (sortedKeys (mc obj)))))
 //@     invariant (= (outBadK (mc obj) rest true) (outBadK (mc obj) (sortedKeys (mc obj)) true))
+//@     invariant (=> (escV obj@pre) (and (= outs (VList LNil)) (forall ((j String)) (=> (select visited j) (= (select (mc ret) j) (select (mc obj) j))))))   [C06]
 //
 //@ func findOutputsList(obj) (res, outs, err)
+//@   uses escNoBoolKey
+//@   ensures (=> (escV obj) (and (not (isErr err)) (= res obj) (= outs (VList LNil))))       [C06]
 //@   uses appNil, snocApp, appAssoc, dropMarkersRank
 //@   ensures (= (isErr err) (outBad obj true))
 //@   ensures (=> (not (isErr err)) (= res (stripF obj)))                           [C11]
@@ -228,16 +237,19 @@ package bkl
 //@     invariant (= (app (ls ret) (stripL rest)) (stripL (ls obj)))
 //@     invariant (= (app (ls outs) (selL rest)) (selL (ls obj)))
 //@     invariant (= (outBadL rest true) (outBadL (ls obj) true))
+//@     invariant (=> (escL (ls obj)) (and (= outs (VList LNil)) (= (app (ls ret) rest) (ls obj)) (escL rest)))   [C06]
 //
 //@ func filterOutput(obj) (res, err)
 //@   ensures (= (isErr err) (outBad obj false))
 //@   ensures (=> (not (isErr err)) (= res (hideF obj)))                            [C11] [C06]
+//@   ensures (=> (escV obj) (and (not (isErr err)) (= res (dropF obj))))                      [C06]
 //@   decreases (rank obj) 1
 //
 //@ func filterOutputMap(obj) (res, err)
 //@   requires ((_ is VMap) obj)
 //@   ensures (= (isErr err) (outBad obj false))
 //@   ensures (=> (not (isErr err)) (= res (hideF obj)))                            [C11]
+//@   ensures (=> (escV obj) (and (not (isErr err)) (= res (dropF obj))))                      [C06]
 //@   decreases (rank obj) 0
 //@   call filterMap#1
 //@     invariant ((_ is VMap) ret)
@@ -245,8 +257,12 @@ package bkl
 //@                  (ite (= (hideF (select (mc m) j)) VNil) VAbsent (hideF (select (mc m) j))))))
 //@     invariant (forall ((j String)) (=> (not (select visited j)) (= (select (mc ret) j) VAbsent)))
 //@     invariant (= (outBadK (mc m) rest false) (outBadK (mc m) (sortedKeys (mc m)) false))
+//@     invariant (=> (escV obj@pre) (and (= m obj@pre) (forall ((j String)) (=> (select visited j) (= (select (mc ret) j)   [C06]
+//@                  (ite (= (dropF (select (mc m) j)) VNil) VAbsent (dropF (select (mc m) j))))))))
 //
 //@ func filterOutputList(obj) (res, err)
+//@   uses escNoBoolKey
+//@   ensures (=> (escV obj) (and (not (isErr err)) (= res (dropF obj))))                      [C06]
 //@   uses appNil, snocApp, noMarkerNoExtra
 //@   ensures (= (isErr err) (outBad obj false))
 //@   ensures (=> (not (isErr err)) (= res (hideF obj)))                            [C11]
@@ -255,6 +271,7 @@ package bkl
 //@     invariant ((_ is VList) ret)
 //@     invariant (= (app (ls ret) (hideL rest)) (hideL (ls l)))
 //@     invariant (= (outBadL rest false) (outBadL (ls l) false))
+//@     invariant (=> (escL (ls l)) (and (= (app (ls ret) (dropL rest)) (dropL (ls l))) (escL rest)))   [C06]
 
 // ------------------------------------------------------------------------------------------------- finalize.go
 
@@ -353,10 +370,16 @@ package bkl
 // measure: (1002 - depth, rank of the function inside one depth level); process1 increments depth and refuses depth > 1000
 
 //@ func process1(obj, mergeFrom, mergeFromDocs, depth) (res, err)
+//@   ensures (=> (quiet obj depth) (and (not (isErr err)) (= res (dropF obj))))          [C06]
 //@   inplace obj
 //@   property C10
 //@   decreases (- 1002 depth) 0
 //@ func process1Map(obj, mergeFrom, mergeFromDocs, depth) (res, err)
+//@   ensures (=> (quiet obj (- depth 1)) (and (not (isErr err)) (= res (dropF obj))))    [C06]
+//@   call filterMap#1
+//@     invariant ((_ is VMap) ret)
+//@     invariant (=> (quiet m (- depth 1)) (forall ((j String)) (=> (select visited j) (= (select (mc ret) j) (ite (= (dropF (select (mc m) j)) VNil) VAbsent (dropF (select (mc m) j)))))))   [C06]
+//@     invariant (=> (quiet m (- depth 1)) (forall ((j String)) (=> (not (select visited j)) (= (select (mc ret) j) VAbsent))))   [C06]
 //@   inplace obj
 //@   property C10
 //@   requires ((_ is VMap) obj)
@@ -369,12 +392,23 @@ package bkl
 //@ func process1MapReplace(obj, mergeFrom, mergeFromDocs, v, depth) (res, err)
 //@   decreases (- 1002 depth) 1
 //@ func process1List(obj, mergeFrom, mergeFromDocs, depth) (res, err)
+//@   uses appNil, snocApp, escNoKey
+//@   ensures (=> (quiet obj (- depth 1)) (and (not (isErr err)) (= res (dropF obj))))    [C06]
+//@   call filterList#1
+//@     invariant ((_ is VList) ret)
+//@     invariant (=> (escL (ls l)) (and (= (app (ls ret) rest) (ls l)) (= merge (VList LNil)) (escL rest)))   [C06]
+//@   loop 1
+//@     invariant (=> (= (ls merge) LNil) (= obj obj@loop))   [C06]
+//@   call filterList#2
+//@     invariant ((_ is VList) ret)
+//@     invariant (=> (quiet l (- depth 1)) (and (= (app (ls ret) (dropL rest)) (dropL (ls l))) (escL rest)))   [C06]
 //@   inplace obj
 //@   property C10
 //@   decreases (- 1002 depth) 5
 //@ func process1ListReplace(obj, mergeFrom, mergeFromDocs, m, depth) (res, err)
 //@   decreases (- 1002 depth) 1
 //@ func process1String(obj, mergeFrom, mergeFromDocs, depth) (res, err)
+//@   ensures (=> (escS obj) (and (not (isErr err)) (= res (VStr obj))))                    [C06]
 //@   decreases (- 1002 depth) 5
 //@ func process1StringMerge(obj, mergeFrom, mergeFromDocs, depth) (res, err)
 //@   decreases (- 1002 depth) 1
@@ -384,8 +418,18 @@ package bkl
 // ------------------------------------------------------------------------------------------------- process2.go (termination: depth guard)
 
 //@ func process2(obj, mergeFrom, mergeFromDocs, ec, depth) (res, err)
+//@   ensures (=> (quiet obj depth) (and (not (isErr err)) (= res (dropF obj))))          [C06]
 //@   decreases (- 1002 depth) 0
 //@ func process2Map(obj, mergeFrom, mergeFromDocs, ec, depth) (res, err)
+//@   requires ((_ is VMap) obj)
+//@   ensures (=> (quiet obj (- depth 1)) (and (not (isErr err)) (= res (dropF obj))))    [C06]
+//@   call filterMap#1
+//@     invariant ((_ is VMap) ret)
+//@     invariant (=> (escV m) (forall ((j String)) (= (select (mc ret) j) (ite (select visited j) (select (mc m) j) VAbsent))))   [C06]
+//@   call filterMap#2
+//@     invariant ((_ is VMap) ret)
+//@     invariant (=> (quiet m (- depth 1)) (forall ((j String)) (=> (select visited j) (= (select (mc ret) j) (ite (= (dropF (select (mc m) j)) VNil) VAbsent (dropF (select (mc m) j)))))))   [C06]
+//@     invariant (=> (quiet m (- depth 1)) (forall ((j String)) (=> (not (select visited j)) (= (select (mc ret) j) VAbsent))))   [C06]
 //@   decreases (- 1002 depth) 9
 //@ func process2MapValue(obj, mergeFrom, mergeFromDocs, ec, v, depth) (res, err)
 //@   decreases (- 1002 depth) 1
@@ -398,6 +442,11 @@ package bkl
 //@ func process2DecodeStringMap(obj, mergeFrom, mergeFromDocs, ec, v, depth) (res, err)
 //@   decreases (- 1002 depth) 3
 //@ func process2List(obj, mergeFrom, mergeFromDocs, ec, depth) (res, err)
+//@   uses appNil, snocApp, escNoKey
+//@   ensures (=> (quiet obj (- depth 1)) (and (not (isErr err)) (= res (dropF obj))))    [C06]
+//@   call filterList#1
+//@     invariant ((_ is VList) ret)
+//@     invariant (=> (quiet l (- depth 1)) (and (= (app (ls ret) (dropL rest)) (dropL (ls l))) (escL rest)))   [C06]
 //@   decreases (- 1002 depth) 9
 //@ func process2RepeatObjMap(v, mergeFrom, mergeFromDocs, ec, k, r, depth) (res, err)
 //@   decreases (- 1002 depth) 2
@@ -473,6 +522,7 @@ package bkl
 // ------------------------------------------------------------------------------------------------- termination: interpolation, $parent chains
 
 //@ func process2String(obj, mergeFrom, mergeFromDocs, ec, depth) (res, err)
+//@   ensures (=> (escS obj) (and (not (isErr err)) (= res (VStr obj))))                    [C06] [C13]
 //@   decreases (- 1002 depth) 1
 //@ func process2StringInterp(obj, mergeFrom, mergeFromDocs, ec, depth) (res, err)
 //@   decreases (- 1002 depth) 0
@@ -501,3 +551,10 @@ package bkl
 //@   decreases (flagsIn v) (rank v) 1
 //@ func process2EncodeString(obj, mergeFrom, mergeFromDocs, v, depth) (res, err)
 //@   decreases (flagsIn (VStr v)) 0 0
+
+//@ func popListMapValue(l, k) (val, rest, err)
+//@   uses appNil, snocApp
+//@   ensures (=> (not (anyKeyL (ls l) k)) (and (not (isErr err)) (= val VNil) (= rest l)))              [C06]
+//@   call filterList#1
+//@     invariant ((_ is VList) ret)
+//@     invariant (=> (not (anyKeyL (ls l) k)) (and (= (app (ls ret) rest) (ls l)) (= ret@outer VNil) (not (anyKeyL rest k))))   [C06]
